@@ -266,7 +266,7 @@ SELF_BOUND = ('%d seeded programs: two nested tuple literals (depth 3, distinct 
 
 def standin_self_copies(tier, seed):
     rnd = random.Random(seed + 501)
-    progs = self_programs(rnd, 400 if tier == 'thorough' else 40)
+    progs = self_programs(rnd, 250 if tier == 'thorough' else 40)
     cases, meta = [], []
     for g in progs:
         whole = '\n'.join(g.stmts)
@@ -300,7 +300,7 @@ def standin_self_copies(tier, seed):
 
 def standin_self_copies_build(tier, seed):
     rnd = random.Random(seed + 1501)
-    progs = self_programs(rnd, 300 if tier == 'thorough' else 30, typed=True)
+    progs = self_programs(rnd, 200 if tier == 'thorough' else 30, typed=True)
     cases = []
     for g in progs:
         lines, tail = [], []
